@@ -4,6 +4,7 @@
 package pagefam
 
 import (
+	"bytes"
 	"context"
 	"encoding/json"
 	"errors"
@@ -18,6 +19,8 @@ import (
 
 	"github.com/opencontainers/go-digest"
 	ocispec "github.com/opencontainers/image-spec/specs-go/v1"
+	"oras.land/oras-go/v2/content"
+	"oras.land/oras-go/v2/content/oci"
 	"oras.land/oras-go/v2/registry/remote"
 	"verif/harness/vh"
 )
@@ -185,6 +188,61 @@ func (s *server) RoundTrip(req *http.Request) (*http.Response, error) {
 
 var errCb = errors.New("verif: callback error")
 
+// ociTags lists the tags of an OCI layout in which the names item(i) with Types[i-1] == "A" are tags.
+func ociTags(t *testing.T, ctx context.Context, base string, c Case, variant string) ([][]int, string) {
+	dir, _ := os.MkdirTemp(base, "oci")
+	defer os.RemoveAll(dir)
+	st, err := oci.New(dir)
+	if err != nil {
+		t.Fatal(err)
+	}
+	blob := []byte("tagged content")
+	desc := content.NewDescriptorFromBytes("application/vnd.verif.blob", blob)
+	if err := st.Push(ctx, desc, bytes.NewReader(blob)); err != nil {
+		t.Fatal(err)
+	}
+	for i := c.Len; i >= 1; i-- {
+		if c.Types[i-1] == "A" {
+			if err := st.Tag(ctx, desc, item(i)); err != nil {
+				t.Fatal(err)
+			}
+		}
+	}
+	var lister interface {
+		Tags(ctx context.Context, last string, fn func(tags []string) error) error
+	} = st
+	if variant == "ro" {
+		ro, err := oci.NewFromFS(ctx, os.DirFS(dir))
+		if err != nil {
+			t.Fatal(err)
+		}
+		lister = ro
+	}
+	last := ""
+	if c.Last > 0 {
+		last = item(c.Last)
+	}
+	pages := [][]int{}
+	err = lister.Tags(ctx, last, func(ss []string) error {
+		idx := []int{}
+		for _, s := range ss {
+			idx = append(idx, itemIndex(s))
+		}
+		pages = append(pages, idx)
+		if c.CbFail != 0 && len(pages) == c.CbFail {
+			return errCb
+		}
+		return nil
+	})
+	switch {
+	case err == nil:
+		return pages, "ok"
+	case errors.Is(err, errCb):
+		return pages, "cb"
+	}
+	return pages, "err:" + err.Error()
+}
+
 func TestDrive(t *testing.T) {
 	out := os.Getenv("VH_OUT")
 	if out == "" {
@@ -201,9 +259,22 @@ func TestDrive(t *testing.T) {
 	rot := &vh.Rot{Dir: out, Max: vh.EnvInt("VH_ROT", 25000)}
 	ctx := context.Background()
 	n := 0
+	base := t.TempDir()
 	for ci, c := range cases {
 		if c.Types == nil {
 			c.Types = []string{}
+		}
+		if c.API == "ocitags" {
+			// the OCI-layout store's own listing: read-write store and the same layout opened read-only
+			for _, variant := range []string{"rw", "ro"} {
+				pages, outcome := ociTags(t, ctx, base, c, variant)
+				n++
+				tr := rot.Next()
+				tr.Begin(n)
+				tr.Emit(map[string]any{"e": "page", "case": ci, "c": c, "pages": pages, "reqs": []any{}, "outcome": outcome, "consumed": []int{},
+					"limit": limit, "wantpath": "", "variant": variant})
+			}
+			continue
 		}
 		srv := &server{c: c}
 		pages := [][]int{}
